@@ -4,6 +4,7 @@
 mod c03;
 mod c05;
 mod c08;
+mod c11;
 mod c15;
 mod c16;
 mod c20;
@@ -67,6 +68,7 @@ fn main() {
         "c16-e2e" => c16::e2e(&ctx),
         "c08-flat" => c08::run(&ctx),
         "c20-flat" => c20::run(&ctx),
+        "c11-debruijn" => c11::run(&ctx),
         other => {
             eprintln!("unknown sub-command {other}");
             std::process::exit(2);
